@@ -443,6 +443,26 @@ fn str_views(s: &str, out: &mut Vec<ViewCase>, rep: &mut Report) {
     }
 }
 
+/// NULL + 0 string views, the way a default-constructed `std::string_view` arrives
+fn null_str_views(out: &mut Vec<ViewCase>, rep: &mut Report) {
+    let raw: [usize; 2] = [0, 0];
+    let v: DiplomatUtf8StrSlice = unsafe { std::mem::transmute_copy(&raw) };
+    let d_len = { let d: &str = &v; d.len() };
+    let d_null = { let d: &str = &v; d.as_ptr().is_null() };
+    let back: &str = v.into();
+    out.push(ViewCase { line: "(into 1 0 0)".into(), real: format!("{} {}", class(back.as_ptr() as usize, usize::MAX), back.len()), numeric: false });
+    if d_len != 0 || d_null || back.as_ptr().is_null() || !back.is_empty() {
+        rep.oracle_fail("str NULL+0", "null-str-view-not-the-empty-string", json!({"deref_len": d_len, "deref_ptr_is_null": d_null, "into_ptr_is_null": back.as_ptr().is_null(), "into_len": back.len()}));
+    }
+    let vo: DiplomatOwnedUTF8StrSlice = unsafe { std::mem::transmute_copy(&raw) };
+    let ol = (&*vo).len();
+    let b: Box<str> = vo.into();
+    out.push(ViewCase { line: "(owned-into 1 0 0)".into(), real: format!("{} {}", class(b.as_ptr() as usize, usize::MAX), b.len()), numeric: false });
+    if ol != 0 || !b.is_empty() || b.as_ptr().is_null() {
+        rep.oracle_fail("owned str NULL+0", "null-owned-str-view-not-the-empty-string", json!({"deref_len": ol, "box_len": b.len()}));
+    }
+}
+
 fn views_part(rep: &mut Report, thorough: bool) {
     let lens: Vec<usize> = if thorough { (0..=64).collect() } else { vec![0, 1, 2, 3, 4, 5, 7, 8, 16, 33, 64] };
     let mut cases: Vec<ViewCase> = vec![];
@@ -467,6 +487,7 @@ fn views_part(rep: &mut Report, thorough: bool) {
     for s in ["", "a", "héllo", "€uro", "𝄞clef", "mixed ✓ 𝄞 ok"] {
         str_views(s, &mut cases, rep);
     }
+    null_str_views(&mut cases, rep);
     rep.count_n("view_ops", cases.len());
     let lines: Vec<String> = cases.iter().map(|c| c.line.clone()).collect();
     let model = match crate::model::run_model("C16", &lines) {
